@@ -1,10 +1,13 @@
 /-
 C01 — End-to-end payload delivery between stations through BTP and GeoNetworking.
 Property theorems only. Model: `FlexModel/Net/Stack.lean` (BTP header, GN source operations incl. location
-service buffers, receive side with DAD/DPD/area test/forwarding; two stations on a reliable medium).
+service buffers, receive side with DAD/DPD/area test/forwarding; two stations on a synchronous medium) and
+`FlexModel/Net/Mesh.lean` (n stations in mutual range on an asynchronous broadcast medium: any delivery order).
+Proof of the n-station theorems: `FlexModel/Net/Mesh{Lemmas,Inv,Step,Run}.lean` (invariant + per-event lemma).
 -/
 import FlexModel.Net.Lemmas
-import FlexModel.Net.Flood
+import FlexModel.Net.MeshOrder
+import FlexModel.Net.MeshRing
 
 namespace Props.C01
 open FlexModel.Net
@@ -269,14 +272,59 @@ theorem e2e_two_stations (w : World) (ps : List Step) (a b : Station) (h : Quiet
 theorem not_to_sender (w : World) (a b : Station) (r : Req) (h : Quiet a b) (hr : ReqOK b r) :
     (exchange w a b r).1.delivered = a.delivered := (exchange_good w a b r h hr).2.1
 
-theorem not_outside_area (w : World) (a b : Station) (r : Req) (ar : Area)
+/-- lemmas about the SPECIFICATION function `expected` (what the property prescribes), not about the code model:
+nothing is prescribed for a station outside the area / without a handler on the destination port -/
+theorem expected_outside_area_nil (w : World) (a b : Station) (r : Req) (ar : Area)
     (ht : r.transport = .gbc ar ∨ r.transport = .gac ar) (hout : w.inside ar b.addr = false) :
     expected w a b r = [] := by
   rcases ht with ht | ht <;> simp [expected, ht, hout]
 
-theorem unregistered_port_not_delivered (w : World) (a b : Station) (r : Req) (hp : ¬ r.dport ∈ b.ports) :
+theorem expected_unregistered_port_nil (w : World) (a b : Station) (r : Req) (hp : ¬ r.dport ∈ b.ports) :
     expected w a b r = [] := by
   simp [expected, hp]
+
+/-- the same two clauses about the MODEL OF THE CODE: whatever packet a station receives, in whatever state -/
+theorem receive_delivers_at_most (w : World) (s : Station) (p : Pkt) :
+    (receive w s p).1.delivered = s.delivered ∨
+    (receive w s p).1.delivered = s.delivered ++ dlvS w s.addr s.ports p := by
+  have h := receive_spec w s p
+  generalize receive w s p = res at h
+  cases h with
+  | ignore _ => exact Or.inl rfl
+  | shb s' _ _ _ _ _ _ hd => exact Or.inr hd
+  | plain s' out _ _ _ _ _ _ _ hd _ _ _ => exact Or.inr hd
+  | reply s' _ _ _ _ _ _ _ hd => exact Or.inl hd
+  | flush s2 q _ _ _ _ _ _ _ _ hd => exact Or.inl (by rw [flush_delivered, hd])
+
+/-- a station outside the destination area never hands a GBC / GAC packet to any handler -/
+theorem receive_outside_area_not_delivered (w : World) (s : Station) (p : Pkt) (ar : Area)
+    (hk : p.kind = .gbc ar ∨ p.kind = .gac ar) (hout : w.inside ar s.addr = false) :
+    (receive w s p).1.delivered = s.delivered := by
+  have : dlvS w s.addr s.ports p = [] := by rcases hk with hk | hk <;> simp [dlvS, hitS, hk, hout]
+  rcases receive_delivers_at_most w s p with h | h
+  · exact h
+  · rw [h, this, List.append_nil]
+
+/-- a packet for a port without registered handler is handed to nobody (in particular to no other port's handler) -/
+theorem receive_unregistered_port_not_delivered (w : World) (s : Station) (p : Pkt)
+    (hp : ¬ (btpDecode p.data).1 ∈ s.ports) : (receive w s p).1.delivered = s.delivered := by
+  have : dlvS w s.addr s.ports p = [] := by simp [dlvS, hp]
+  rcases receive_delivers_at_most w s p with h | h
+  · exact h
+  · rw [h, this, List.append_nil]
+
+/-- every handler invocation `receive` causes is on the decoded destination port, carries the decoded payload, the
+packet's source position vector and transport type -/
+theorem receive_delivery_fields (w : World) (s : Station) (p : Pkt) (d : Delivery) (hd : d ∈ dlvS w s.addr s.ports p) :
+    d.port = (btpDecode p.data).1 ∧ d.port ∈ s.ports ∧ d.payload = (btpDecode p.data).2.2 ∧ d.so = p.so ∧
+    d.soPos = p.soPos ∧ d.kind = p.kind ∧ p.so ≠ s.addr := by
+  unfold dlvS at hd
+  split at hd
+  · rename_i h
+    simp only [List.mem_singleton] at hd
+    subst hd
+    exact ⟨rfl, by simpa using h.2.2, rfl, rfl, rfl, rfl, h.1⟩
+  · simp at hd
 
 /-! ## Non-vacuity: a concrete quiescent pair and a programme that exercises the location service -/
 
@@ -289,6 +337,265 @@ def exReq (t : Transport) (pl : Bytes) : Req :=
 example : Quiet exA exB := ⟨by decide, rfl, rfl, by simp [exB], by simp [exA]⟩
 example : (runProg exW exA exB [(true, exReq (.guc 2) [1, 2, 3]), (true, exReq (.gbc 7) []), (true, exReq (.gbc 8) [9])]).2.delivered.map (·.payload)
     = [[1, 2, 3], []] := by decide
+
+/-! ## n stations, asynchronous medium
+
+`Mesh` = n stations in mutual radio range.  Every transmitted frame is queued once per OTHER station; the medium
+delivers the queued (receiver, frame) pairs one at a time in an order chosen by the schedule: ANY order (across
+receivers, across senders, even between two frames of one sender), each pair exactly once.  Forwarded copies,
+location-service requests / replies and flushed buffers go through the same medium. -/
+
+/-- what the property prescribes station `b` to be handed because of one event: for a request of the station with
+address `i` the delivery `expected` computes (nothing if `b` is the requester), for a delivery step nothing -/
+def prescribed (w : World) (sts : List Station) (b : Station) : Ev → List Delivery
+  | .req i r => expectedFrom w sts i b r
+  | .dlv _ => []
+
+/-- **Exactly once, whatever the interleaving.**  n stations with pairwise distinct GN addresses (`QuietN.distinct`),
+no lookup in progress at the start.  `evs` is ANY sequence of events: requests handed to any station at any time
+(SHB, GBC, GAC, GUC to a known station or through the location service — also while frames of earlier requests are
+still in the air and while a lookup for the same destination is pending) interleaved in any way with single
+deliveries of pending (receiver, frame) pairs in any order.  If nothing is left in the air at the end, then every
+station has been handed exactly the prescribed deliveries — each one once, byte-identical, on the destination port
+only, with the sender's position vector and transport type — and nothing else (multiset equality; the sender gets
+nothing, stations outside the area get nothing: `expectedFrom` is `[]` for them). -/
+theorem async_exactly_once_n (w : World) (sts : List Station) (hq : QuietN sts) (evs : List Ev)
+    (hev : ∀ ev ∈ evs, EvOK (Mesh.ofList sts) ev) (hair : ((Mesh.ofList sts).run w evs).air = []) :
+    ∀ b ∈ sts, (((Mesh.ofList sts).run w evs).st b.addr).delivered.Perm
+      (b.delivered ++ evs.flatMap (prescribed w sts b)) := by
+  intro b hb
+  have h := (async_exactly_once w _ hq.quietM evs hev hair).2.2 b.addr (List.mem_map.mpr ⟨b, hb, rfl⟩)
+  rw [ofList_st sts hq.distinct b hb] at h
+  refine h.trans (List.Perm.of_eq ?_)
+  congr 1
+  simp only [extraAll]
+  apply flatMap_congr'
+  intro ev _
+  cases ev with
+  | req i r => exact extraOf_ofList w sts hq.distinct i r b hb
+  | dlv k => rfl
+
+/-- requests of a programme in scope: 16-bit ports, not parked by the store-carry-forward stub (C01-KF1), unicast
+destination is another station of the mesh (known or found by the location service) -/
+def ProgOKN (sts : List Station) (prog : List Exch) : Prop := FlexModel.Net.ProgOK (Mesh.ofList sts) prog
+
+/-- **End-to-end theorem, n stations, any delivery order.**  For every number of stations with pairwise distinct
+GN addresses, every programme of requests issued by any of them in any order and length, where the frames each
+request induces (the packet, its forwarded copies, location-service request / reply, the flushed unicast packets)
+are delivered in ANY order — `Complete`: the schedule of each exchange leaves nothing in the air; no other
+assumption on the order — every station is handed exactly the prescribed deliveries, appended in request order:
+once, byte-identical, right port, sender's position vector and transport type; nothing for the sender, for
+stations outside the area, for unregistered ports.  Forwarded copies of every packet do appear on the medium
+(`forwardCopy`) and are ignored as duplicates / own packets by everyone. -/
+theorem e2e_n_stations (w : World) (sts : List Station) (hq : QuietN sts) (prog : List Exch)
+    (hp : ProgOKN sts prog) (hc : Complete w (Mesh.ofList sts) prog) :
+    ∀ b ∈ sts, (((Mesh.ofList sts).runProg w prog).st b.addr).delivered =
+      b.delivered ++ prog.flatMap (fun x => expectedFrom w sts x.snd b x.req) := by
+  intro b hb
+  have h := (runProg_n w _ hq.quietM prog hp hc).2 b.addr (List.mem_map.mpr ⟨b, hb, rfl⟩)
+  rw [ofList_st sts hq.distinct b hb] at h
+  rw [h]
+  congr 1
+  apply flatMap_congr'
+  intro x _
+  exact extraOf_ofList w sts hq.distinct x.snd x.req b hb
+
+/-- what the driver executes (`Mesh.stepG` with full range and the plain station semantics) is the step function
+of the theorems -/
+theorem driver_step_is_model_step (w : World) (m : Mesh) (ev : Ev) :
+    m.stepG (plainSem w) fullRange ev = m.step w ev := stepG_full w m ev
+
+/-- GeoAnycast among several receivers inside the area (what the code does, EN 302 636-4-1 §10.3.12.3 as
+implemented: every station inside the area that hears the packet hands it up and does not forward it): with all
+stations in range of the sender EVERY in-area station is handed the payload exactly once — `expected` does not
+distinguish GAC from GBC. -/
+theorem gac_every_in_area_station (w : World) (a b : Station) (r : Req) (ar : Area) (ht : r.transport = .gac ar)
+    (hin : w.inside ar b.addr = true) (hp : r.dport ∈ b.ports) :
+    expected w a b r = [{ port := r.dport, info := r.info, btpB := r.btpB, payload := r.payload, so := a.addr,
+                          soPos := a.pos, kind := .gac ar }] := by
+  simp [expected, ht, hin, hp]
+
+/-! ### Non-vacuity: three stations, mixed programme, scrambled delivery orders -/
+
+def ex1 : Station := { addr := 1, pos := 11, ports := [2001] }
+def ex2 : Station := { addr := 2, pos := 22, ports := [2001, 2002] }
+def ex3 : Station := { addr := 3, pos := 33, ports := [2002] }
+/-- area 7 contains stations 2 and 3, area 8 only station 3 -/
+def exW3 : World := { inside := fun ar x => (ar == 7 && (x == 2 || x == 3)) || (ar == 8 && x == 3) }
+def exR (t : Transport) (pl : Bytes) : Req :=
+  { btpB := true, dport := 2002, info := 5, payload := pl, transport := t, hopLimit := 3, scfBlocked := false }
+
+/-- unicast 1→3 through the location service, GBC of 2 into area 7, GAC of 3 into area 7, SHB of 1, GBC of 2
+into area 8, unicast 3→1 (now known); the schedules are pseudo-random complete schedules (seeds 7, 3, 11, …) -/
+def exProg3 : List Exch :=
+  mkProg exW3 500 (Mesh.ofList [ex1, ex2, ex3])
+    [(1, exR (.guc 3) [1, 2, 3], 7), (2, exR (.gbc 7) [], 3), (3, exR (.gac 7) [4], 11), (1, exR .shb [5], 5),
+     (2, exR (.gbc 8) [6], 9), (3, { exR (.guc 1) [7] with dport := 2001 }, 13)]
+
+example : QuietN [ex1, ex2, ex3] := ⟨by decide, by simp [ex1, ex2, ex3], by simp [ex1, ex2, ex3]⟩
+example : Complete exW3 (Mesh.ofList [ex1, ex2, ex3]) exProg3 := by decide
+/-- the schedules are not FIFO -/
+example : (exProg3.map (·.sched.take 3)).head? = some [0, 2, 0] := by decide
+example : ((((Mesh.ofList [ex1, ex2, ex3]).runProg exW3 exProg3).st 3).delivered.map (fun d => (d.so, d.payload)))
+    = [(1, [1, 2, 3]), (2, []), (1, [5]), (2, [6])] := by decide
+example : ((((Mesh.ofList [ex1, ex2, ex3]).runProg exW3 exProg3).st 2).delivered.map (fun d => (d.so, d.payload)))
+    = [(3, [4]), (1, [5])] := by decide
+example : ((((Mesh.ofList [ex1, ex2, ex3]).runProg exW3 exProg3).st 1).delivered.map (fun d => (d.so, d.payload)))
+    = [(3, [7])] := by decide
+
+/-- `e2e_two_stations` for an asynchronous medium: the n-station theorem at n = 2 -/
+theorem e2e_two_stations_async (w : World) (a b : Station) (hq : QuietN [a, b]) (prog : List Exch)
+    (hp : ProgOKN [a, b] prog) (hc : Complete w (Mesh.ofList [a, b]) prog) :
+    (((Mesh.ofList [a, b]).runProg w prog).st b.addr).delivered =
+      b.delivered ++ prog.flatMap (fun x => expectedFrom w [a, b] x.snd b x.req) ∧
+    (((Mesh.ofList [a, b]).runProg w prog).st a.addr).delivered =
+      a.delivered ++ prog.flatMap (fun x => expectedFrom w [a, b] x.snd a x.req) :=
+  ⟨e2e_n_stations w [a, b] hq prog hp hc b (by simp), e2e_n_stations w [a, b] hq prog hp hc a (by simp)⟩
+
+/-- the two-station `Quiet` is `QuietN` of the pair -/
+theorem quiet_is_quietN (a b : Station) (h : Quiet a b) (hsa : ∀ sn, (a.addr, sn) ∈ a.seen → sn ≤ a.sn)
+    (hsb : ∀ sn, (b.addr, sn) ∈ b.seen → sn ≤ b.sn) : QuietN [a, b] := by
+  refine ⟨by simp [h.ne], by simp [h.pa, h.pb], ?_⟩
+  intro s hs t ht sn hm
+  simp only [List.mem_cons, List.mem_singleton, List.not_mem_nil, or_false] at hs ht
+  rcases hs with rfl | rfl <;> rcases ht with rfl | rfl
+  · exact hsa sn hm
+  · exact h.sb sn hm
+  · exact h.sa sn hm
+  · exact hsb sn hm
+
+/-! ### Delivery order: what an arbitrary order does NOT preserve
+
+`e2e_n_stations` needs no assumption on the delivery order because each request's frames are delivered before the
+next request is issued.  When requests overlap (several requests' frames in the air together), exactly-once still
+holds for any order (`async_exactly_once_n`) but the order of the handler invocations at a receiver is the order
+in which the medium delivers: -/
+
+/-- two stations, two GBC requests back to back, the medium delivers the second frame first: the receiver is
+handed the payloads in the opposite order (no FIFO assumption ⇒ no request order) -/
+theorem order_needs_fifo_witness :
+    ((((Mesh.ofList [exA, exB]).run exW
+        [.req 1 (exReq (.gbc 7) [1]), .req 1 (exReq (.gbc 7) [2]), .dlv 1, .dlv 0]).st 2).delivered.map (·.payload))
+      = [[2], [1]] := by decide
+
+/-- three stations, SHB then GBC from station 1; each receiver gets the frames OF EACH SENDER in transmission
+order (FIFO per sender), but station 3's forwarded copy of the GBC reaches station 2 before station 1's SHB frame:
+FIFO per sender is not enough for n ≥ 3 -/
+theorem order_needs_more_than_sender_fifo_witness :
+    ((((Mesh.ofList [ex1, ex2, ex3]).run exW3
+        [.req 1 (exR .shb [1]), .req 1 (exR (.gbc 7) [2]), .dlv 1, .dlv 2, .dlv 3, .dlv 0, .dlv 0, .dlv 0, .dlv 0, .dlv 0]).st 2).delivered.map
+          (·.payload)) = [[2], [1]] ∧
+    (((Mesh.ofList [ex1, ex2, ex3]).run exW3
+        [.req 1 (exR .shb [1]), .req 1 (exR (.gbc 7) [2]), .dlv 1, .dlv 2, .dlv 3, .dlv 0, .dlv 0, .dlv 0, .dlv 0, .dlv 0]).air = []) := by
+  decide
+
+/-- "request order per destination" is per destination of the REQUEST: a unicast that has to wait for the
+location service is handed over after a broadcast requested later (FIFO medium, two stations) -/
+theorem ls_deferred_unicast_after_later_broadcast_witness :
+    ((((Mesh.ofList [exA, exB]).run exW
+        [.req 1 (exReq (.guc 2) [1]), .req 1 (exReq (.gbc 7) [2]), .dlv 0, .dlv 0, .dlv 0, .dlv 0, .dlv 0]).st 2).delivered.map
+          (·.payload)) = [[2], [1]] := by decide
+
+/-! ### Delivery order: request order per destination on a medium that is FIFO per receiver -/
+
+/-- **Request order per destination, overlapping requests.**  n stations, ANY interleaving of requests and
+single deliveries — requests may be issued while frames of earlier requests are still in the air and while a
+location-service lookup for their destination is pending, other stations' traffic arrives in between — under ONE
+assumption on the medium (`FifoRun`): every station hears the frames in the order in which they were transmitted
+(stations may lag behind each other arbitrarily).  If nothing is left in the air at the end, then what station `b`
+has been handed from station `a` for the destination of transport `t` (single-hop broadcast / a given area / a
+given unicast address) is exactly what `a`'s requests with that transport prescribe, in request order.
+Without the assumption the clause fails (`order_needs_fifo_witness`, and for n ≥ 3 FIFO per sender is not enough:
+`order_needs_more_than_sender_fifo_witness`); it is per destination of the REQUEST, not per receiving station
+(`ls_deferred_unicast_after_later_broadcast_witness`). -/
+theorem request_order_per_destination (w : World) (sts : List Station) (hq : QuietN sts) (evs : List Ev)
+    (hev : ∀ ev ∈ evs, EvOK (Mesh.ofList sts) ev) (hfifo : FifoRun w (Mesh.ofList sts) evs)
+    (hair : ((Mesh.ofList sts).run w evs).air = []) :
+    ∀ a ∈ sts, ∀ b ∈ sts, a.addr ≠ b.addr → ∀ t : Transport,
+      (((Mesh.ofList sts).run w evs).st b.addr).delivered.filter (fun d => d.so == a.addr && d.kind == kindOf t) =
+        b.delivered.filter (fun d => d.so == a.addr && d.kind == kindOf t) ++
+        ((reqsOf evs a.addr).filter (fun r => r.transport == t)).flatMap (expected w a b) := by
+  intro a ha b hb hab t
+  have h := fifo_order w _ hq.quietM evs hev hfifo hair a.addr (List.mem_map.mpr ⟨a, ha, rfl⟩) b.addr
+    (List.mem_map.mpr ⟨b, hb, rfl⟩) hab t
+  rw [ofList_st sts hq.distinct b hb] at h
+  rw [h]
+  congr 1
+  apply flatMap_congr'
+  intro r _
+  simp only [staticOf, ofList_st sts hq.distinct a ha, ofList_st sts hq.distinct b hb]
+  rw [expS_expected, if_neg hab]
+
+/-- the location-service clause of the property: station 1 issues three unicast requests back to back for
+station 3, which it has never heard (the first starts the lookup, the others are issued while it is pending);
+unrelated traffic (an SHB of station 2, a GBC of station 3) is requested and received in between; the medium is
+FIFO per receiver.  All hypotheses of `request_order_per_destination` hold and station 3 is handed the three
+payloads once each, in request order. -/
+def exLsBurst : List Ev :=
+  [.req 1 (exR (.guc 3) [1]), .req 1 (exR (.guc 3) [2]), .req 2 (exR .shb [9]), .dlv 1, .req 1 (exR (.guc 3) [3]),
+   .req 3 (exR (.gbc 7) [8])] ++ (List.replicate 40 (.dlv 0))
+
+example : FifoRun exW3 (Mesh.ofList [ex1, ex2, ex3]) exLsBurst := by decide
+example : ((Mesh.ofList [ex1, ex2, ex3]).run exW3 exLsBurst).air = [] := by decide
+example : (((((Mesh.ofList [ex1, ex2, ex3]).run exW3 exLsBurst).st 3).delivered.filter
+    (fun d => d.so == 1 && d.kind == kindOf (.guc 3))).map (·.payload)) = [[1], [2], [3]] := by decide
+example : ∀ ev ∈ exLsBurst, EvOK (Mesh.ofList [ex1, ex2, ex3]) ev := by
+  intro ev hev
+  simp only [exLsBurst, List.cons_append, List.nil_append, List.mem_cons, List.mem_replicate] at hev
+  rcases hev with rfl | rfl | rfl | rfl | rfl | rfl | ⟨_, rfl⟩ <;>
+    simp [EvOK, RqOK, exR, Mesh.ofList, ex1, ex2, ex3]
+
+/-- duplicate packet list as a ring (the code: `itsGnDPLLength` = 8 sequence numbers per source): nine unicast
+requests of station 1 wait for a lookup of station 2; when they are flushed, station 3 forwards every packet and
+station 2's ring has forgotten the first sequence numbers when the copies arrive — every payload is handed over
+twice (known finding C01-KF2; real-stack replay in `props/c01.py`).  With the unbounded duplicate memory of the
+theorems (`plainSem`) each payload arrives once. -/
+def nineUnicasts : List Ev := (List.range 9).map (fun k => Ev.req 1 { exR (.guc 2) [k] with dport := 2001 })
+
+theorem dpl_ring_overflow_witness :
+    (((drain (ringSem exW3 8 65535) fullRange 400 0
+        (nineUnicasts.foldl (Mesh.stepG (ringSem exW3 8 65535) fullRange) (Mesh.ofList [ex1, ex2, ex3]))).1.st 2).delivered.map
+          (·.payload)) = [[0], [1], [2], [3], [4], [5], [6], [7], [8], [0], [1], [2], [3], [4], [5], [6], [7], [8]] ∧
+    (((drain (plainSem exW3) fullRange 400 0
+        (nineUnicasts.foldl (Mesh.stepG (plainSem exW3) fullRange) (Mesh.ofList [ex1, ex2, ex3]))).1.st 2).delivered.map
+          (·.payload)) = [[0], [1], [2], [3], [4], [5], [6], [7], [8]] := by
+  decide +kernel
+
+/-! ### What the driver runs: duplicate ring of `L` per source, sequence numbers modulo `M`
+
+The code remembers only the last `itsGnDPLLength` = 8 sequence numbers per source and allocates sequence numbers
+modulo 65535; the theorems above are about unbounded memory and numbers.  `ring_refines_plain` closes the gap under
+an explicit window hypothesis; `dpl_ring_overflow_witness` shows that the hypothesis is needed. -/
+
+/-- **Refinement under the window hypothesis.**  Fresh stations (empty duplicate lists, counters below the modulus),
+any schedule of requests and deliveries.  If at every delivery the ring of the last `L` sequence numbers per source
+modulo `M` answers the duplicate test like the complete history would (`WindowRun`), then the run of the driver's
+semantics (`ringSem`: ring + wrap-around) is, station by station, the ring view of the run of the plain semantics:
+in particular every handler is invoked with exactly the same deliveries in the same order, so all theorems above hold
+for it. -/
+theorem ring_refines_plain (w : World) (L M : Nat) (hM : 0 < M) (sts : List Station)
+    (hfresh : ∀ s ∈ sts, s.seen = [] ∧ s.sn < M) (evs : List Ev) (hw : WindowRun w L M (Mesh.ofList sts) evs) :
+    evs.foldl (Mesh.stepG (ringSem w L M) fullRange) (Mesh.ofList sts) = ringM L M ((Mesh.ofList sts).run w evs) ∧
+    ∀ a, ((evs.foldl (Mesh.stepG (ringSem w L M) fullRange) (Mesh.ofList sts)).st a).delivered =
+      (((Mesh.ofList sts).run w evs).st a).delivered := by
+  have h0 : ringM L M (Mesh.ofList sts) = Mesh.ofList sts := by
+    apply ringM_fresh L M _ rfl
+    intro a
+    by_cases ha : a ∈ sts.map (·.addr)
+    · exact hfresh _ (ofList_mem sts a ha)
+    · refine ⟨ofList_seen_nil sts a ha, ?_⟩
+      have : sts.find? (fun s => decide (s.addr = a)) = none := by
+        rw [List.find?_eq_none]; intro s hs he; simp at he; exact ha (List.mem_map.mpr ⟨s, hs, he⟩)
+      simp [Mesh.ofList, this, hM]
+  have h1 := ring_run w L M (Mesh.ofList sts) evs hw
+  rw [h0] at h1
+  exact ⟨h1, fun a => by rw [h1]; rfl⟩
+
+/-- the window hypothesis holds for the location-service burst above with the code's parameters (8, 65535) … -/
+example : WindowRun exW3 8 65535 (Mesh.ofList [ex1, ex2, ex3]) exLsBurst := by decide
+/-- … and fails for the nine buffered unicasts of `dpl_ring_overflow_witness` delivered in FIFO order -/
+example : ¬ WindowRun exW3 8 65535 (Mesh.ofList [ex1, ex2, ex3]) (nineUnicasts ++ List.replicate 120 (.dlv 0)) := by
+  decide +kernel
 
 /-- Known finding C01-KF1 (store-carry-forward buffers are stubs), machine-checked witness: a request parked by
 the stub is prescribed a delivery that never happens.  `ReqOK` excludes exactly this region (`scfBlocked`). -/
